@@ -14,6 +14,8 @@ for name in sorted(m):
     summ = summ[:150] + ('…' if len(summ) > 150 else '')
     t = ', '.join(det.get(tgt, [])[:3]) if tgt in det else '**MISSED**'
     others = ', '.join(sorted(k for k in det if k != tgt)) or '—'
+    if m[name].get('partial'):
+        others += ' (only ' + ', '.join(m[name]['partial']) + ' were run)'
     print(f"| `{name}` | {summ} | {tgt}: {t} | {others} |")
 sp = os.path.join(VERIF, 'selftest', 'preserving', 'STATUS.json')
 if os.path.exists(sp):
